@@ -152,6 +152,30 @@ def local_field(e, binds):
     return None
 
 
+def linear(e, binds, sign=1, acc=None):
+    """Linear form of a +/- chain over op fields: {field: coefficient}; None if anything else occurs."""
+    acc = {} if acc is None else acc
+    e = unwrap(e)
+    if not isinstance(e, dict):
+        return None
+    f = local_field(e, binds)
+    if f is not None:
+        acc[f] = acc.get(f, 0) + sign
+        return acc
+    if e.get("k") == "binary" and e["op"] in ("+", "-"):
+        if linear(e["l"], binds, sign, acc) is None:
+            return None
+        if linear(e["r"], binds, sign if e["op"] == "+" else -sign, acc) is None:
+            return None
+        return acc
+    if e.get("k") == "lit" and re.match(r"^\d+$", e.get("src", "")):
+        v = int(e["src"])
+        if v:
+            acc["#"] = acc.get("#", 0) + sign * v
+        return acc
+    return None
+
+
 def range_desc(e, binds):
     """(start field, len field or None) of a range literal `a..a+l` / `a..a` built from op fields."""
     e = unwrap(e)
@@ -162,12 +186,15 @@ def range_desc(e, binds):
     end = unwrap(f.get("end"))
     if s is None:
         return None
-    if local_field(end, binds) == s:
-        return (s, None)
-    if isinstance(end, dict) and end.get("k") == "binary" and end["op"] == "+":
-        a, b = local_field(end["l"], binds), local_field(end["r"], binds)
-        if a == s and b:
-            return (s, b)
+    lf = linear(end, binds)
+    if lf is not None:
+        lf = {k: v for k, v in lf.items() if v != 0}
+        if lf == {s: 1}:
+            return (s, None)
+        if len(lf) == 2 and lf.get(s) == 1:
+            other = [k for k in lf if k != s][0]
+            if lf[other] == 1 and other != "#":
+                return (s, other)
     return ("?", "?")
 
 
@@ -436,12 +463,65 @@ def rule_F4(prog):
                 side = _value_side(lit["node"], arms[v]["body"])
                 got.append((lit["tag"], lit["old_some"], lit["new_some"], side))
             ok = got == want
+            # the branch that yields an old-side change may depend on the old cursor only (and new on new): this is
+            # what makes a Replace yield all its deletes before its first insert
+            gbad = []
+            for lit in lits:
+                cond = _innermost_if_cond(arms[v]["body"], lit["node"])
+                if cond is None:
+                    continue
+                names = set()
+                walk_hir(cond, lambda n: names.add(n["name"]) if n.get("k") == "field" else (
+                    names.add(n["res"]["name"]) if n.get("k") == "path" and n.get("res", {}).get("k") == "local" else None))
+                from .coord import name_side
+                sides = {name_side(x) for x in names} - {None}
+                want_side = "N" if lit["tag"] == "Insert" else "O"
+                if sides and sides != {want_side}:
+                    gbad.append("%s change guarded by `%s`" % (lit["tag"], origin(cond)))
+            ok = ok and not gbad
             r.instances += 1
-            r.ob(ok, "ChangesIter::next arm %s yields %s" % (v, got))
+            r.ob(ok, "ChangesIter::next arm %s yields %s%s" % (v, got, (" BUT " + "; ".join(gbad)) if gbad else ""))
+            if gbad:
+                r.find(fn.path, "arm-guard:%s" % v, "ChangesIter::next, %s op: %s -- an old-side change must be guarded by the "
+                       "old cursor only and a new-side change by the new cursor only (deletes before inserts)" % (
+                           v, "; ".join(gbad)), file=fn.file, line=arms[v]["pat"].get("line", fn.line))
             if not ok:
                 r.find(fn.path, "arm:%s" % v, "ChangesIter::next for a %s op must yield %s (tag, old index, new index, "
                        "value side); found %s" % (v, want, got), file=fn.file, line=arms[v]["pat"].get("line", fn.line))
     return r
+
+
+def _innermost_if_cond(scope, target):
+    """Condition of the innermost `if` whose then- or else-branch contains `target` (by node id)."""
+    best = [None]
+
+    def contains(n, tid):
+        found = [False]
+
+        def v(x):
+            if x.get("id") == tid and x.get("k") == "struct":
+                found[0] = True
+        walk_hir(n, v)
+        return found[0]
+
+    def go(n):
+        if isinstance(n, dict):
+            if n.get("k") == "if":
+                if contains(n["t"], target["id"]):
+                    best[0] = n["c"]
+                    go(n["t"])
+                    return
+                if n.get("f") and contains(n["f"], target["id"]):
+                    go(n["f"])
+                    return
+            for k, v in n.items():
+                if isinstance(v, (dict, list)) and k not in ("res", "gargs", "tyj"):
+                    go(v)
+        elif isinstance(n, list):
+            for v in n:
+                go(v)
+    go(scope)
+    return best[0]
 
 
 def _value_side(lit, scope):
